@@ -30,12 +30,13 @@ CLAIMED = {
             "derived from is_min alone).",
             "Coq proof (R) + differential correspondence with exact rational QP oracle"),
     "C04": ("proof",
-            "PARTIAL. Proved in Coq for all matrices: at a minimiser (M w)_i >= 0, hence for DualProj and UPGrad "
+            "Proved in Coq for all matrices: at a minimiser (M w)_i >= 0, hence for DualProj and UPGrad "
             "(J.A(J))_i >= -reg_eps s^2 w_i for every row (props/C04.v). Also proved (C04_mgda_allowance): for every budget and epsilon, "
             "(J.A(J))_i >= -s*sqrt(|A(J)|^2-|x*|^2) with x* a min-norm point of the hull (variational inequality + "
             "Cauchy-Schwarz), and x* itself opposes no objective. Also proved: CAGrad with c>=1 opposes no objective, from optimality of the conic program's answer "
             "(first-order conditions derived, not assumed); MGDA on two rows is exactly non-conflicting after one "
-            "step. NOT proved (oracle only): the Frank-Wolfe rate 8 s^2/(K+2); existence of x* is a hypothesis. Direct oracle: the stated allowance on random matrices of "
+            "step. The Frank-Wolfe rate is proved too (C04_mgda_rate): with epsilon = 0, |A(J)|^2 - |x*|^2 <= 8 s^2/(K+2) for every K and every "
+            "upper bound s of sigma_max. Existence of x* is a hypothesis (compactness is not formalised); CAGrad's solver answer is a contract. Direct oracle: the stated allowance on random matrices of "
             "all categories and exhaustively on all {-1,0,1} matrices (2x2,2x3,3x2 quick; up to 3x3 thorough), "
             "at scale 1 and at sigma_max just above norm_eps, all MGDA budgets 0..1000.",
             "DESIGN.md §8 C04, §13",
@@ -89,13 +90,14 @@ CLAIMED["C08"] = ("proof",
     "answers are functions of the Gramian (oracle arguments are the same on both sides of the theorem).",
     "Coq proof (meta-theorem + instances) + differential oracle")
 CLAIMED["C09"] = ("proof",
-    "PARTIAL. Proved in Coq (props/C09.v), all sizes: for every FIXED weight vector (Mean, Sum, Constant, Random "
+    "Proved in Coq (props/C09.v), all sizes: for every FIXED weight vector (Mean, Sum, Constant, Random "
     "under a fixed draw) c -> A(diag(c) J) is linear in c (all c, not only positive). Also proved: PCGrad, for EVERY "
     "fixed schedule, is linear in positive c (conflict tests scale-invariant, projections independent of the scale "
     "of the row projected on); ConFIG's unit rows are scale free and its output is linear in c given the same "
-    "pseudo-inverse oracle. UPGrad with reg_eps = 0 is EXACTLY linear for any oracle returning minimisers (C09_upgrad_unregularised). NOT proved, checked by the direct oracle only: UPGrad's quantitative defect bound "
-    "K sqrt(reg_eps) s|w| on the ladder 1e-2..1e-12 and vanishing at 1e-16 (K = 10x the maximum measured on the "
-    "unchanged tree). Oracle: three related scalings c1, c2, a c1 + b c2 with entries 2^-10..2^10, f32/f64.",
+    "pseudo-inverse oracle. UPGrad with reg_eps = 0 is EXACTLY linear for any oracle returning minimisers (C09_upgrad_unregularised); WITH regularisation the defect is at most sqrt(reg_eps)/2 * (s12 W12 + a s1 W1 + b s2 W2), W the summed norms "
+    "of the unregularised one-hot minimisers (C09_upgrad_defect_bound, from the perturbation lemma |J^T(w_eps - w_0)|^2 <= eps s^2 |w_0|^2/4), and vanishes as reg_eps -> 0 "
+    "(C09_upgrad_defect_vanishes). The direct oracle checks the bound K sqrt(reg_eps) s|w| on the ladder 1e-2..1e-12 and vanishing at 1e-16 with an empirical K "
+    "(the theorem's constant involves the unregularised minimisers, which the implementation never computes). Oracle: three related scalings c1, c2, a c1 + b c2 with entries 2^-10..2^10, f32/f64.",
     "DESIGN.md §8 C09, §13",
     "Trusted: Coq kernel + stdlib real axioms; Agg.v; torch RNG under manual_seed draws independently of the "
     "matrix entries; the constant K is empirical.",
